@@ -9,6 +9,7 @@ Importance sampler: real `_INSIntegralState`, `OrderedSamples.finalise`, the
 `final_*` properties and `get_result_dictionary`.
 """
 import datetime
+import math
 
 import numpy as np
 
@@ -152,6 +153,9 @@ def _ins_store(ctx, prefix, m, nlive, OrderedSamples):
     Ls = [ctx.real(f"{prefix}L{i}", -3, 3) for i in range(m)]
     for i in range(m - 1):
         ctx.assume(Ls[i] <= Ls[i + 1])
+    if m >= 2 and ctx.choice(f"{prefix}zero_likelihood_sample", 2):
+        # a returned sample may have zero likelihood (hard cut inside the prior): it sorts first and still counts in the mean
+        Ls[0] = -math.inf
     lw = [ctx.logval(f"{prefix}W{i}", positive=True) for i in range(m)]
     for i in range(m):
         s[i] = (ctx.real(f"{prefix}x{i}"), Ls[i], lw[i], i % 2)
